@@ -111,9 +111,11 @@ def run(chk):
     apis = QUICK_APIS if quick else sorted(APIS)
     secs = secrets(chk.seed, k)
     total_lines = 0
-    for variant in (["std"] if quick else ["std", "noasm", "i64"]):
+    for variant in (["std", "i64"] if quick else ["std", "noasm", "i64"]):
         exe, marks, d = build_runner(chk, variant)
-        jobs = [(exe, marks, d, api, var, i, secs[i]) for api in apis for var in (APIS[api][:2] if quick else APIS[api]) for i in range(k)]
+        # quick tier: the alternative limb configuration is recorded for the signing family only (scalar inverse, ecmult_gen, field code)
+        vapis = [a for a in apis if a in ("ecdsa_sign", "schnorrsig_sign", "adaptor_encrypt", "ecdh")] if (quick and variant != "std") else apis
+        jobs = [(exe, marks, d, api, var, i, secs[i]) for api in vapis for var in (APIS[api][:2] if quick else APIS[api]) for i in range(k)]
         with cf.ThreadPoolExecutor(max_workers=16) as ex:
             results = list(ex.map(one_run, jobs))
         events = []; runs = 0
